@@ -317,10 +317,14 @@ def load_known():
     return [f for f in d.get("findings", []) if isinstance(f, dict)]
 
 
+EVIDENCE_DIR = os.environ.get("VERIF_EVIDENCE_DIR", VERIF + "/evidence")   # overridden only when trying mutants
+REPLAY_DIR = os.environ.get("VERIF_REPLAY_DIR", VERIF + "/replays")
+
+
 def write_replay(pid, kind, payload):
-    os.makedirs(VERIF + "/replays", exist_ok=True)
+    os.makedirs(REPLAY_DIR, exist_ok=True)
     h = hashlib.sha256(json.dumps(payload, sort_keys=True, default=str).encode()).hexdigest()[:12]
-    path = "%s/replays/%s-%s-%s.json" % (VERIF, pid, kind, h)
+    path = "%s/%s-%s-%s.json" % (REPLAY_DIR, pid, kind, h)
     with open(path, "w") as f:
         json.dump(dict(payload, property=pid, kind=kind), f, indent=1, default=str)
     return path
@@ -557,8 +561,8 @@ def main(argv):
         "violations": len(new_viol) if new_viol else (1 if exit_code else 0),
         "known_findings_reported": sorted(seen_known), "replays": replay_paths,
     }
-    os.makedirs(VERIF + "/evidence", exist_ok=True)
-    with open("%s/evidence/%s.json" % (VERIF, pid), "w") as f:
+    os.makedirs(EVIDENCE_DIR, exist_ok=True)
+    with open("%s/%s.json" % (EVIDENCE_DIR, pid), "w") as f:
         json.dump(ev, f, indent=1)
     for ln in lines:
         print(ln)
